@@ -1,4 +1,5 @@
 import PlushModel
+import PlushModel.Gen.EvalDispatch
 /-!
   C05 — no silent failure. `Gen.tolerantOps`, `Gen.tolerantOnlyUnknownIdent` and `Gen.tolerantSites` are
   TRANSLATED from compiler.go (toleratedOperandError and the three `err.(*ErrUnknownIdentifier)` guards).
@@ -79,5 +80,18 @@ theorem C05_compile_error (fuel : Nat) (t : Token) (e : Option Expr) (rest : Lis
       = (.err { er with line := some (match s1.curStmt with | some l => l | none => t.line), direct := false }, s1) := by
   simp [compileStmts, bind, modifyS, attempt, h, getS, throwErr, pure, Stmt.tok]
   cases s1.curStmt <;> rfl
+
+/-- EVERY `fmt.Errorf` IN THE EVALUATOR THAT IS HANDED AN ERROR WRAPS IT WITH %w (re-read from compiler.go,
+    helper_context.go, partial_helper.go, template.go, plush.go and helpers/content on every run): the two sites are
+    `compile` ("line N: %w") and the helper-call site ("could not call … function: %w"); everywhere else errors are
+    returned as they are. So the cause chain survives to the caller (`errors.Is` / `errors.As`) — the model keeps
+    `causes` through both wrappers (`C12_wrap_keeps_causes`, `C05_compile_error`). A new wrapper that formats the
+    error with %s or %v (seeded change C05-i) adds an entry with `false`. -/
+theorem C05_error_wrappers_keep_the_cause :
+    Gen.errorfSites = [("compiler.go:compile", true), ("compiler.go:evalCallExpression", true)] ∧
+    ∀ p ∈ Gen.errorfSites, p.2 = true := by
+  constructor
+  · rfl
+  · decide
 
 end Plush
